@@ -6,10 +6,13 @@ package main
 
 import (
 	"fmt"
+	"math/rand"
 	"os"
 	"path/filepath"
+	"sort"
 	"strings"
 
+	"github.com/google/uuid"
 	"github.com/wrgl/wrgl/pkg/local"
 	"github.com/wrgl/wrgl/pkg/objects"
 	"github.com/wrgl/wrgl/pkg/ref"
@@ -138,4 +141,310 @@ func c14CLIRun(in *c14CLIInput) Res {
 func runC14CLI(ctx *Ctx) {
 	in := &c14CLIInput{Branches: 2 + ctx.R.Intn(5), Victim: ctx.R.Intn(7)}
 	ctx.Emit("tx-cli", in, c14CLIRun(in), true, "cli")
+}
+
+// ---- staging through the command line ------------------------------------------------------------
+//
+// The branches of a transaction are staged by `wrgl commit ... --txid T` in one of its three forms
+// (CSV file on the command line; file and primary key taken from branch.<name>.file; `--all`), on a
+// repository whose existing branches were made by `wrgl commit`. The repository is dumped before
+// staging, after staging and after every `wrgl transaction commit/discard`, in the terms of the
+// transaction model (c14State): staging moves no branch, and everything that follows is the
+// all-or-nothing property of C14 on what was staged.
+
+type c14StageInput struct {
+	Heads  map[string]int `json:"heads"`  // existing branches -> orig commit id
+	Staged map[string]int `json:"staged"` // branch -> staged commit id
+	Form   string         `json:"form"`   // file | branch | all
+	Ops    []c14Op        `json:"ops"`    // commit | discard, possibly with Hide
+}
+
+func c14StageRun(in *c14StageInput) Res {
+	root, err := os.MkdirTemp(privateTmp(), "tstage-")
+	if err != nil {
+		return Err("tmpdir")
+	}
+	defer os.RemoveAll(root)
+	os.Setenv("XDG_CONFIG_HOME", filepath.Join(root, "xdg"))
+	os.Setenv("HOME", root)
+	return Guard(func() Res {
+		dir := filepath.Join(root, "repo", ".wrgl")
+		os.MkdirAll(filepath.Join(root, "repo"), 0755)
+		rd, err := local.NewRepoDir(dir, "")
+		if err != nil {
+			return Err("repodir")
+		}
+		if err := rd.Init(); err != nil {
+			return Err("init")
+		}
+		rd.Close()
+		run := func(args ...string) (string, bool) {
+			out, err := cli(dir, args...)
+			if err != nil {
+				return strings.Join(args, " ") + ": " + out + ": " + err.Error(), false
+			}
+			return out, true
+		}
+		fail := func(what string) Res {
+			if len(what) > 300 {
+				what = what[:300]
+			}
+			return Res{"res": "err", "kind": what}
+		}
+		withRepo := func(f func(db objects.Store, rs ref.Store)) bool {
+			rd, err := local.NewRepoDir(dir, "")
+			if err != nil {
+				return false
+			}
+			defer rd.Close()
+			db, err := rd.OpenObjectsStore()
+			if err != nil {
+				return false
+			}
+			defer db.Close()
+			f(db, rd.OpenRefStore())
+			return true
+		}
+		for _, a := range [][]string{{"config", "set", "user.email", "u@example.com"}, {"config", "set", "user.name", "U"}} {
+			if out, ok := run(a...); !ok {
+				return fail(out)
+			}
+		}
+		sortedKeys := func(m map[string]int) []string {
+			ks := []string{}
+			for k := range m {
+				ks = append(ks, k)
+			}
+			sort.Strings(ks)
+			return ks
+		}
+		file := func(b string) string { return filepath.Join(root, b+".csv") }
+		// existing branches
+		for _, b := range sortedKeys(in.Heads) {
+			os.WriteFile(file(b), []byte(fmt.Sprintf("k,v\n1,o%d\n", in.Heads[b])), 0644)
+			args := []string{"commit", b, file(b), "c" + itoa(in.Heads[b]), "-n", "1", "-p", "k"}
+			if in.Form != "file" {
+				args = append(args, "--set-file", "--set-primary-key")
+			}
+			if out, ok := run(args...); !ok {
+				return fail(out)
+			}
+			if in.Form != "file" {
+				if out, ok := run("config", "set", "branch."+b+".merge", "refs/heads/"+b); !ok {
+					return fail(out)
+				}
+			}
+		}
+		origID := map[string]int{}
+		withRepo(func(db objects.Store, rs ref.Store) {
+			for b, id := range in.Heads {
+				if s, err := ref.GetHead(rs, b); err == nil {
+					origID[string(s)] = id
+				}
+			}
+		})
+		if len(origID) != len(in.Heads) {
+			return fail("setup: branches missing")
+		}
+		out, ok := run("transaction", "start")
+		if !ok {
+			return fail(out)
+		}
+		txidStr := strings.TrimSpace(out)
+		txid, err := uuid.Parse(txidStr)
+		if err != nil {
+			return fail("txid: " + out)
+		}
+		isBranch := func(b string) bool {
+			_, h := in.Heads[b]
+			_, s := in.Staged[b]
+			return h || s
+		}
+		stagedByTable := map[string]int{}
+		dump := func(outcome string) c14State {
+			st := c14State{Heads: [][]string{}, Staged: []string{}, Logs: map[string]int{}, Outcome: outcome, Moved: []string{}}
+			withRepo(func(db objects.Store, rs ref.Store) {
+				var cidOf func(sum []byte, depth int) string
+				cidOf = func(sum []byte, depth int) string {
+					if sum == nil {
+						return "none"
+					}
+					if id, ok := origID[string(sum)]; ok {
+						return fmt.Sprintf("o%d", id)
+					}
+					c, err := objects.GetCommit(db, sum)
+					if err != nil {
+						return "missing"
+					}
+					var parent []byte
+					if len(c.Parents) > 0 {
+						parent = c.Parents[0]
+					}
+					if depth > 8 {
+						return "deep"
+					}
+					// a commit made by the transaction carries the table of a staged commit and says so
+					if id, ok := stagedByTable[string(c.Table)]; ok && strings.HasPrefix(c.Message, "commit [tx/"+txidStr+"]") && len(c.Parents) <= 1 {
+						return fmt.Sprintf("t(%d,%s)", id, cidOf(parent, depth+1))
+					}
+					return fmt.Sprintf("x(%s)", cidOf(parent, depth+1))
+				}
+				hs, _ := ref.ListHeads(rs)
+				for b, s := range hs {
+					// `wrgl commit` from a branch file keeps the ingested file as branch <name>-tmp (a cache)
+					if strings.HasSuffix(b, "-tmp") && isBranch(strings.TrimSuffix(b, "-tmp")) {
+						continue
+					}
+					st.Heads = append(st.Heads, []string{b, cidOf(s, 0)})
+				}
+				sort.Slice(st.Heads, func(i, j int) bool { return st.Heads[i][0] < st.Heads[j][0] })
+				ts, _ := ref.ListTransactionRefs(rs, txid)
+				for b := range ts {
+					st.Staged = append(st.Staged, b)
+				}
+				sort.Strings(st.Staged)
+				if tx, err := rs.GetTransaction(txid); err == nil {
+					st.Exists = true
+					st.Committed = tx.Status == ref.TSCommitted
+				}
+				for b := range hs {
+					lr, err := rs.LogReader("heads/" + b)
+					if err != nil {
+						continue
+					}
+					for {
+						l, err := lr.Read()
+						if err != nil {
+							break
+						}
+						if l.Txid != nil && *l.Txid == txid {
+							st.Logs[b]++
+						}
+					}
+					lr.Close()
+					if st.Logs[b] > 0 {
+						st.Moved = append(st.Moved, b)
+					}
+				}
+				sort.Strings(st.Moved)
+			})
+			return st
+		}
+		pre := dump("pre")
+		// staging
+		for _, b := range sortedKeys(in.Staged) {
+			os.WriteFile(file(b), []byte(fmt.Sprintf("k,v\n1,s%d\n2,%s\n", in.Staged[b], b)), 0644)
+			var args []string
+			switch in.Form {
+			case "file":
+				args = []string{"commit", b, file(b), "c" + itoa(in.Staged[b]), "-n", "1", "-p", "k", "--txid", txidStr}
+			case "branch":
+				args = []string{"commit", b, "c" + itoa(in.Staged[b]), "-n", "1", "--txid", txidStr}
+			default:
+				continue
+			}
+			if out, ok := run(args...); !ok {
+				return fail(out)
+			}
+		}
+		if in.Form == "all" {
+			if out, ok := run("commit", "--all", "--txid", txidStr, "-n", "1", "staged together"); !ok {
+				return fail(out)
+			}
+		}
+		// what was staged: the tables of the staged commits
+		withRepo(func(db objects.Store, rs ref.Store) {
+			ts, _ := ref.ListTransactionRefs(rs, txid)
+			for b, s := range ts {
+				if c, err := objects.GetCommit(db, s); err == nil {
+					if id, ok := in.Staged[b]; ok {
+						stagedByTable[string(c.Table)] = id
+					}
+				}
+			}
+		})
+		states := []c14State{dump("init")}
+		for _, op := range in.Ops {
+			var hiddenKey, hiddenVal []byte
+			if op.Hide != "" {
+				withRepo(func(db objects.Store, rs ref.Store) {
+					ts, _ := ref.ListTransactionRefs(rs, txid)
+					if s, ok := ts[op.Hide]; ok {
+						hiddenKey = append([]byte("com/"), s...)
+						hiddenVal, _ = db.Get(hiddenKey)
+						if hiddenVal != nil {
+							db.Delete(hiddenKey)
+						}
+					}
+				})
+			}
+			var ok bool
+			switch op.Kind {
+			case "commit":
+				_, ok = run("transaction", "commit", txidStr)
+			case "discard":
+				_, ok = run("transaction", "discard", txidStr)
+			}
+			if hiddenVal != nil {
+				withRepo(func(db objects.Store, rs ref.Store) { db.Set(hiddenKey, hiddenVal) })
+			}
+			outcome := "ok"
+			if !ok {
+				outcome = "error"
+			}
+			states = append(states, dump(outcome))
+		}
+		return Ok(map[string]interface{}{"pre": pre, "states": states})
+	})
+}
+
+func genC14Stage(r *rand.Rand, form string) *c14StageInput {
+	in := &c14StageInput{Heads: map[string]int{}, Staged: map[string]int{}}
+	branches := []string{"a", "b", "c", "d"}
+	in.Form = form
+	ns := 1 + r.Intn(3)
+	perm := r.Perm(len(branches))
+	id := 1
+	for i, p := range perm {
+		b := branches[p]
+		// a staged branch of the branch-file forms exists already (that is where its file is configured);
+		// otherwise branches exist or not, staged or not
+		if (i < ns && in.Form != "file") || r.Intn(2) == 0 {
+			in.Heads[b] = id
+			id++
+		}
+	}
+	for i := 0; i < ns; i++ {
+		in.Staged[branches[perm[i]]] = id
+		id++
+	}
+	staged := []string{}
+	for b := range in.Staged {
+		staged = append(staged, b)
+	}
+	sort.Strings(staged)
+	none := func(kind string) c14Op { return c14Op{Kind: kind, FailAt: -1} }
+	hide := c14Op{Kind: "commit", FailAt: -1, Hide: staged[r.Intn(len(staged))]}
+	switch r.Intn(6) {
+	case 0:
+		in.Ops = []c14Op{none("discard")}
+	case 1:
+		in.Ops = []c14Op{none("discard"), none("commit")}
+	case 2:
+		in.Ops = []c14Op{none("commit"), none("discard")}
+	case 3:
+		in.Ops = []c14Op{none("commit"), none("commit")}
+	case 4:
+		in.Ops = []c14Op{hide, none("commit")}
+	default:
+		in.Ops = []c14Op{hide, none("discard")}
+	}
+	return in
+}
+
+func runC14Stage(ctx *Ctx) {
+	// the three forms of the command take turns
+	every := map[bool]int{false: 100, true: 400}[ctx.Thorough()]
+	in := genC14Stage(ctx.R, []string{"branch", "all", "file"}[(ctx.Idx/every)%3])
+	ctx.Emit("tx-cli-stage", in, c14StageRun(in), true, "cli-stage", "form-"+in.Form)
 }
